@@ -171,8 +171,8 @@ type Hand struct {
 	ReplayTrace []TraceStep // replay: execute exactly these steps (probe steps are re-made by the monitor)
 	replayPos   int
 	Opts        *pokerface.GameOptions // the options value the hand's game was made from (the table may start its next hand from the same value)
-	spare       pokerface.Game // a used game object from the pool: the hand may move onto it (LoadState) mid-way
-	lastInc     int64          // size of the last bet or raise actually made in this round, as seen by the driver (0 = none yet)
+	spare       pokerface.Game         // a used game object from the pool: the hand may move onto it (LoadState) mid-way
+	lastInc     int64                  // size of the last bet or raise actually made in this round, as seen by the driver (0 = none yet)
 }
 
 func (h *Hand) caseJSON() interface{} {
